@@ -47,6 +47,8 @@ fn tok(req: &Value) -> Value {
                     Token::SingleQuotedString(s) => ("String", s.clone()),
                     // BigQuery: a literal opened by three quotes; its value is a string like any other
                     Token::TripleSingleQuotedString(s) => ("String", s.clone()),
+                    // N'...' (national string literal): a string token too; its value is what matters
+                    Token::NationalStringLiteral(s) => ("String", s.clone()),
                     Token::Number(s, _) => ("Number", s.clone()),
                     Token::Word(w) => match w.quote_style {
                         Some(q) => ("Quoted", format!("{}{}", q, w.value)),
